@@ -180,6 +180,14 @@ func checkC12(r *report.Report, tier string, seed int64) error {
 		runs  []runObs
 		final tool.Files
 	}
+	// every third history is replayed with the output named through a second path: a symbolic link to the
+	// package directory (-out ../pklink/setup.gen.go). It is the same file, so nothing may change.
+	viaLink := make([]bool, len(hists))
+	nh := len(hists)
+	for i := 0; i < nh; i += 3 {
+		hists = append(hists, hists[i])
+		viaLink = append(viaLink, true)
+	}
 	obs := make([]obsT, len(hists))
 	var wg sync.WaitGroup
 	sem := make(chan struct{}, 16)
@@ -195,6 +203,13 @@ func checkC12(r *report.Report, tier string, seed int64) error {
 			}
 			defer os.RemoveAll(dir)
 			outp := filepath.Join(dir, "pk", "setup.gen.go")
+			args := []string{"setup.go"}
+			if viaLink[i] {
+				if err := os.Symlink("pk", filepath.Join(dir, "pklink")); err != nil {
+					return
+				}
+				args = []string{"-out", "../pklink/setup.gen.go", "setup.go"}
+			}
 			for _, s := range hists[i] {
 				switch s.Kind {
 				case "edit":
@@ -204,7 +219,7 @@ func checkC12(r *report.Report, tier string, seed int64) error {
 				case "remove":
 					_ = os.Remove(outp)
 				case "run":
-					res := tool.Run(filepath.Join(dir, "pk"), []string{"setup.go"}, nil, 0)
+					res := tool.Run(filepath.Join(dir, "pk"), args, nil, 0)
 					obs[i].runs = append(obs[i].runs, runObs{res.Status, res.Stdout, res.Stderr})
 				}
 			}
@@ -260,6 +275,10 @@ func checkC12(r *report.Report, tier string, seed int64) error {
 			r.Count("step=" + s.Kind)
 		}
 		desc := strings.Join(labels, " ; ")
+		if viaLink[i] {
+			desc = "[-out through a symlinked directory] " + desc
+			r.Count("output-named-through-symlink")
+		}
 		r.Eval(tool.Hash(desc, key), nontrivial)
 		m := res[i]
 		want := tool.Files{}
